@@ -22,6 +22,7 @@ pub mod arith;
 pub mod coll;
 pub mod tags;
 pub mod lexrep;
+pub mod loc;
 
 // ------------------------------------------------------------------ PRNG (splitmix64)
 #[derive(Clone)]
